@@ -49,16 +49,19 @@ Theorem c12_remark_sections_by_mid_when_mids_distinct : forall p p' d fx,
 Proof. exact one_section_per_mid. Qed.
 Print Assumptions c12_remark_sections_by_mid_when_mids_distinct.
 
-(* ... and CreateOffer itself can produce two transceivers with the same mid
-   (an unnumbered transceiver precedes one that took mid "0" from a pending
-   remote offer); each still has exactly one section carrying its own mid
-   (c12_sections). Recorded under C06. *)
-Theorem c12_remark_mids_may_collide_witness :
+(* ... the history on which CreateOffer used to give two transceivers the same
+   mid (an unnumbered transceiver precedes one that took mid "0" from a pending
+   remote offer; found here, recorded and repaired under C06: the numbering loop
+   now looks at the pending remote description and at all transceivers before it
+   gives out a mid) now numbers the unnumbered transceiver "1".  Which histories
+   keep the mids pairwise distinct is C06's subject (c06_numbering_ok_partial:
+   all of them, short of an overflow of greaterMid). *)
+Theorem c12_remark_former_mid_collision_repaired :
   exists p' d fx,
     create_offer (run_ops (pc_init false) dup_mid_history) = (p', ok_desc d, fx)
-    /\ map t_mid (p_tcvs p') = ["0"; "0"].
-Proof. exact dup_mid_refuted. Qed.
-Print Assumptions c12_remark_mids_may_collide_witness.
+    /\ map t_mid (p_tcvs p') = ["1"; "0"].
+Proof. exact dup_mid_repaired. Qed.
+Print Assumptions c12_remark_former_mid_collision_repaired.
 
 (* An application section is present exactly when a data channel was created
    or AlwaysNegotiateDataChannels is set. "A data channel was created" covers
